@@ -66,17 +66,20 @@ def kT_units(engine, T, m_user):
 class ScriptedGen:
     """stand-in for numpy.random.Generator: fixed standard normals, logs every request"""
 
-    def __init__(self, z):
+    def __init__(self, z, events=None):
         self.z = np.array(z, dtype=float)
         self.log = []
+        self.events = events if events is not None else []
 
     def normal(self, loc=0.0, scale=1.0, size=None):
+        self.events.append("engine:normal")
         sc = np.array(scale, dtype=float)
         self.log.append({"stream": "rgen", "method": "normal", "loc": float(loc), "scale": sc.copy(),
                          "size": None if size is None else tuple(size)})
         return loc + sc * self.z.reshape(size)
 
     def standard_normal(self, size=None):
+        self.events.append("engine:standard_normal")
         if isinstance(size, int):
             size = (size,)
         self.log.append({"stream": "rgen", "method": "standard_normal", "loc": 0.0, "scale": None,
@@ -131,18 +134,18 @@ def _imports():
                 LAMMPSEngine=LAMMPSEngine, System=System, tis=tis)
 
 
-def build_engine(mods, work: Path, case):
+def build_engine(mods, work: Path, case, tag=""):
     """construct the engine of `case` the way the repo's tests do (stdout of the constructors muted)"""
     import contextlib
     import io
     with contextlib.redirect_stdout(io.StringIO()):
-        return _build_engine(mods, work, case)
+        return _build_engine(mods, work, case, tag)
 
 
-def _build_engine(mods, work: Path, case):
+def _build_engine(mods, work: Path, case, tag=""):
     import tomli
     eng, T, n = case["engine"], case["T"], case["n"]
-    d = work / f"in_{eng}"
+    d = work / f"in_{eng}{tag}"
     if d.exists():
         shutil.rmtree(d)
     if eng == "gromacs":
@@ -182,11 +185,11 @@ def _build_engine(mods, work: Path, case):
         e = mods["create_engine"](cfg)
     else:
         raise ValueError(eng)
-    return _finish_engine(e, work, eng)
+    return _finish_engine(e, work, eng, tag)
 
 
-def _finish_engine(e, work, eng):
-    exe = work / f"exe_{eng}"
+def _finish_engine(e, work, eng, tag=""):
+    exe = work / f"exe_{eng}{tag}"
     if exe.exists():
         shutil.rmtree(exe)
     exe.mkdir()
@@ -212,7 +215,8 @@ def write_source(case, path: Path):
             out.append(f"{n}")
             out.append("# no box here" if box is None else "# Box: " + " ".join(f"{b:9.4f}" for b in box))
             for i in range(n):
-                out.append(f"{names[i]:5s}" + "".join(f" {x:15.9f}" for x in list(p[i]) + list(v[i])))
+                nums = list(p[i]) + ([] if case.get("no_velocities") else list(v[i]))
+                out.append(f"{names[i]:5s}" + "".join(f" {x:15.9f}" for x in nums))
         path.write_text("\n".join(out) + "\n")
     elif eng == "lammps":
         out = []
@@ -241,7 +245,8 @@ def write_source(case, path: Path):
         for p, v in frames:
             at = Atoms(numbers=case["numbers"], positions=p, cell=box, pbc=True)
             at.set_masses(case["masses"])
-            at.set_velocities(v)
+            if not case.get("no_velocities"):
+                at.set_velocities(v)
             tr.write(at)
         tr.close()
 
@@ -290,6 +295,8 @@ def source_frame(case):
     """what the source frame holds, in the same canonical form as parse_frame"""
     eng, n = case["engine"], case["n"]
     pos, vel = np.array(case["pos"], dtype=float), np.array(case["vel"], dtype=float)
+    if case.get("no_velocities") and eng in ("cp2k", "turtlemd", "ase"):
+        vel = np.zeros_like(pos)      # the frame carries no velocities: the engines read zeros
     if eng == "cp2k":
         return {"ids": list(case["elements"]), "pos": pos, "vel": vel, "box": case["box"]}
     if eng == "turtlemd":
@@ -313,7 +320,9 @@ def make_settings(case):
     zero_momentum, plus the other (nested) entries a real tis_set carries"""
     vs = {"maxlength": 2000, "allowmaxlength": False, "n_jumps": 3, "interface_cap": [0.5, {"k": 1}]} \
         if case.get("rich_settings", True) else {}
-    if case["zm"] is not None:
+    if "zm_value" in case:        # any (falsy-but-valid) value; case["zm"] = its Python truth value
+        vs["zero_momentum"] = case["zm_value"]
+    elif case["zm"] is not None:
         vs["zero_momentum"] = case["zm"]
     return vs
 
@@ -329,15 +338,20 @@ def snap_system(s):
 
 
 # ------------------------------------------------------------------ one case on the real code
-def run_case(mods, work, case, via_prepare=False, shared_vs=None):
-    """returns a dict with everything observed on the real implementation"""
+def run_case(mods, work, case, via_prepare=False, shared_vs=None, engine=None, tag="", src_name=None):
+    """returns a dict with everything observed on the real implementation.
+    `engine`: use this (long-lived) engine object instead of building a fresh one."""
     eng, n, T = case["engine"], case["n"], case["T"]
-    e = build_engine(mods, work, case)
-    src = work / f"src_{eng}.{EXT[eng]}"
+    try:
+        e = engine if engine is not None else build_engine(mods, work, case, tag)
+    except Exception as ex:  # noqa: BLE001
+        return {"engine_mass": None, "err": "construct:" + err_kind(ex) + ":" + str(ex)[:200]}
+    src = work / (src_name or f"src_{eng}{tag}.{EXT[eng]}")
     write_source(case, src)
     src_bytes = src.read_bytes()
     z = np.array(case["z"], dtype=float)
-    gen = ScriptedGen(z)
+    events = []
+    gen = ScriptedGen(z, events)
     e.rgen = gen
     sysm = mods["System"]()
     idx = 0 if eng == "gromacs" else case["idx"]
@@ -359,23 +373,35 @@ def run_case(mods, work, case, via_prepare=False, shared_vs=None):
                     def calculate(self, system):
                         return [0.75]
 
-                class _Pick:
-                    def integers(self, lo, hi=None):
-                        return 1
-                e.order_function = _Ord()
-                path = type("P", (), {})()
-                other = mods["System"]()
-                path.phasepoints = [other, sysm, other]
-                path.length = 3
+                pick = case.get("pick", 2)
+                picks = []
 
-                def gsp(rg, _p=path):
-                    i = rg.integers(1, _p.length - 1)
-                    return _p.phasepoints[i], i
-                path.get_shooting_point = gsp
+                class _Pick:          # the job's MOVE stream (ens_set rgen): only `integers` is legitimate
+                    def integers(self, lo, hi=None, **k):
+                        events.append("move:integers")
+                        picks.append((lo, hi))
+                        return pick
+
+                    def __getattr__(self, name):
+                        raise AssertionError(f"unexpected draw request {name} on the move stream")
+                from infretis.classes.path import Path as InfPath
+                e.order_function = _Ord()
+                path = InfPath(maxlen=20)
+                for k in range(4):
+                    if k == pick:
+                        path.phasepoints.append(sysm)
+                    else:
+                        o = mods["System"]()
+                        o.set_pos((str(src), idx))
+                        o.order = [0.1 * k]
+                        path.phasepoints.append(o)
                 ens_set = {"tis_set": vs, "interfaces": [0.0, 0.25, 1.0], "ens_name": "c16"}
                 ens_before = _copy.deepcopy(ens_set)
                 shpt, sidx, dek = mods["tis"].prepare_shooting_point(path, _Pick(), e, ens_set)
                 obs["ens_set_same"] = ens_set == ens_before
+                obs["draw_order"] = list(events)
+                obs["pick_args"] = picks
+                obs["pick_ok"] = (sidx == pick and len(path.phasepoints) == 4 and path.phasepoints[pick] is sysm)
                 kin_new = shpt.ekin
                 target = shpt
                 obs["copy_is_new_object"] = shpt is not sysm
@@ -399,7 +425,11 @@ def run_case(mods, work, case, via_prepare=False, shared_vs=None):
     m = getattr(e, "masses", None) if eng == "gromacs" else getattr(e, "mass", None)
     obs["engine_mass"] = None if m is None else [float(x) for x in np.array(m).flatten()]
     obs["beta"] = float(e.beta)
-    obs["genvel"] = parse_frame(eng, target.config[0], n)
+    try:
+        obs["genvel"] = parse_frame(eng, target.config[0], n)
+    except Exception as ex:  # noqa: BLE001  (changed code may write something unreadable: report, don't crash)
+        obs["err"] = f"genvel-unreadable:{type(ex).__name__}:{str(ex)[:160]}"
+        return obs
     obs["genvel_name_ok"] = (os.path.basename(target.config[0]) == f"genvel.{EXT[eng]}" and target.config[1] == 0
                              and os.path.dirname(target.config[0]) == str(e.exe_dir))
     obs["src_bytes_same"] = src.read_bytes() == src_bytes
@@ -504,6 +534,12 @@ def gen_case(rng, eng, n, T, zm, kind, mass_dtype=None):
         case["z"] = [[0.0, 0.0, 0.0] for _ in range(n)]
     else:
         case["z"] = [[rng.gauss(0, 1) for _ in range(3)] for _ in range(n)]
+    if kind == "sparse-draw":         # some components exactly 0.0
+        for row in case["z"]:
+            row[rng.randrange(3)] = 0.0
+        case["z"][0] = [0.0, 0.0, case["z"][0][2] or 0.5]
+    if kind == "no-velocities":
+        case["no_velocities"] = True
     case["sys_ekin"] = None if rng.random() < 0.35 else q(0, 40)
     case["vel_rev"] = rng.random() < 0.3
     if eng == "cp2k":
@@ -512,6 +548,18 @@ def gen_case(rng, eng, n, T, zm, kind, mass_dtype=None):
     else:
         case["masses"] = [rng.choice(MASS_POOL) if rng.random() < 0.6 else round(rng.uniform(0.5, 250.0), 6)
                           for _ in range(n)]
+    if kind == "equal-masses":
+        if eng == "cp2k":
+            case["elements"] = [case["elements"][0]] * n
+        else:
+            case["masses"] = [case["masses"][0]] * n
+    if kind == "disparate-masses" and n > 1:
+        if eng == "cp2k":
+            case["elements"] = ["H"] + ["U"] * (n - 1)
+        else:
+            case["masses"] = [0.001] + [25000.0] * (n - 1)
+    if eng in USER_MASS_ENGINES and kind in ("equal-masses", "disparate-masses"):
+        mass_dtype = "float"
     if eng in USER_MASS_ENGINES:
         if mass_dtype is None and rng.random() < 0.25:
             mass_dtype = rng.choice(("int", "npint64"))
@@ -526,8 +574,10 @@ def gen_case(rng, eng, n, T, zm, kind, mass_dtype=None):
     if eng == "gromacs":
         case["names"] = [rng.choice(("H1", "OW", "C")) for _ in range(n)]
         case["box"] = [q(2, 9), q(2, 9), q(2, 9)]
-        case["g96_vel_section"] = rng.random() < 0.85
+        case["g96_vel_section"] = rng.random() < 0.85 and kind != "no-velocities"
         case["idx"] = 0
+        if kind == "ekin-zero":
+            case["sys_ekin"] = 0.0     # falsy but valid: dek = kin_new − 0.0, not inf
     if eng == "lammps":
         types = sorted(set(case["masses"]))
         case["types"] = [types.index(m) + 1 for m in case["masses"]]
@@ -556,6 +606,23 @@ def cases_for(ctx):
                         kinds += ["zero-old-vel"] + (["zero-draw"] if n == 2 else [])
                     for kind in kinds:
                         out.append(gen_case(rng, eng, n, T, zm, kind))
+    # boundary / falsy-but-valid classes
+    falsy = [0, 0.0, "", None, [], 1, "no"]      # values of the zero_momentum entry: Python truthiness decides
+    for eng in ENGINES:
+        nn = 2 if eng != "lammps" else 3
+        for kind in ("equal-masses", "disparate-masses", "sparse-draw", "no-velocities", "ekin-zero"):
+            if kind == "ekin-zero" and eng != "gromacs":
+                continue
+            if kind == "no-velocities" and eng == "lammps":
+                continue                           # a lammps dump always carries vx vy vz
+            for zm in ((None, True) if ctx.quick else (None, False, True)):
+                out.append(gen_case(rng, eng, nn if ctx.quick else rng.choice((2, 3, 5)), 300, zm, kind))
+        for val in (falsy if not ctx.quick else rng.sample(falsy, 3) + [None]):
+            c = gen_case(rng, eng, nn, 300, bool(val), "zm-value")
+            c["zm_value"] = val
+            out.append(c)
+        for T in ((0.001,) if ctx.quick else (0.001, 1e-6, 0.5)):      # small positive temperature
+            out.append(gen_case(rng, eng, nn, T, rng.choice((None, False, True)), "small-T"))
     # integer-typed mass arrays (the user writes `mass = [2, 16]`): the result must not depend on the dtype
     for eng in USER_MASS_ENGINES:
         for md in ("int", "npint64"):
@@ -617,6 +684,11 @@ def evaluate(ctx, case, obs, obs_prep, driver_answers):
         if tag == "modify_velocities" and not set(o["changed_attrs"]) <= {"config", "ekin"}:
             fail(f"C16:{eng}:other-attrs-changed", f"modify_velocities changed {o['changed_attrs']}")
         if tag == "prepare_shooting_point":
+            want_order = ["move:integers", "engine:standard_normal" if eng == "ase" else "engine:normal"]
+            if o.get("draw_order") != want_order or o.get("pick_args") != [(1, 3)] or not o.get("pick_ok"):
+                fail(f"C16:{eng}:draw-order", f"prepare_shooting_point on a 4-frame path: draws {o.get('draw_order')} "
+                     f"(want {want_order}: one index draw integers(1, length-1) on the move stream, then one velocity "
+                     f"draw on the engine stream), integers{o.get('pick_args')}, shooting point/index ok={o.get('pick_ok')}")
             if not o["copy_is_new_object"]:
                 fail(f"C16:{eng}:no-copy", "prepare_shooting_point returned the path's own System object")
         # 3. zero momentum
@@ -760,9 +832,9 @@ def ase_sigp(case):
     return np.sqrt(np.array(case["masses"], dtype=float) * (ase.units.kB * case["T"]))
 
 
-def do_case(ctx, mods, work, case, with_prepare, shared_vs=None):
+def do_case(ctx, mods, work, case, with_prepare, shared_vs=None, **kw):
     eng = case["engine"]
-    obs = run_case(mods, work, case, shared_vs=shared_vs)
+    obs = run_case(mods, work, case, shared_vs=shared_vs, **kw)
     obs_prep = run_case(mods, work, case, via_prepare=True) if with_prepare else None
     answers = None
     if ctx._driver_ok and not obs.get("err") and len(obs["log"]) == 1:
@@ -939,6 +1011,130 @@ def run_shared_settings(ctx, mods, work):
                             {"case": {k: v for k, v in case.items() if not k.startswith("_")}, "order": order,
                              "position": pos, "original_settings": original, "settings_when_called": handed,
                              "check": "shared-settings"})
+
+
+def vary_case(rng, base, kind):
+    """a new frame / draw / settings for the SAME engine instance: what is fixed at construction (masses,
+    elements, atom count, temperature) is kept — except for ASE, whose masses come from each frame"""
+    eng = base["engine"]
+    if eng == "ase":
+        return gen_case(rng, eng, rng.choice((1, 2, 3, 5)), base["T"], rng.choice((None, False, True)), kind)
+    c = gen_case(rng, eng, base["n"], base["T"], rng.choice((None, False, True)), kind)
+    for k in ("masses", "mass_dtype", "elements", "types"):
+        if k in base:
+            c[k] = _copy.deepcopy(base[k])
+        else:
+            c.pop(k, None)
+    return c
+
+
+def run_long_lived(ctx, mods, work):
+    """ONE engine object over a sequence of different systems (new frame content under the SAME file name and
+    under new names, new settings, for ASE also other atom counts and masses), and TWO engine objects of one
+    class alive at once with different temperatures and masses, used alternately.  Every call goes through the
+    full tie/predicates for the current input and must equal, bit for bit, the same call on a FRESH engine
+    (nothing cached from earlier calls or shared between instances may leak)."""
+    rng = ctx.rng
+    for eng in ENGINES:
+        n0 = rng.choice((2, 3)) if eng != "lammps" else 3
+        base_a = gen_case(rng, eng, n0, 300, None, "long-lived")
+        base_b = gen_case(rng, eng, n0 + 1, rng.choice((77.5, 1000)), None, "long-lived")
+        try:
+            ea = build_engine(mods, work, base_a, tag="A")
+            eb = build_engine(mods, work, base_b, tag="B")
+        except Exception as ex:  # noqa: BLE001
+            _report(ctx, f"C16:{eng}:raises", f"engine construction raised {err_kind(ex)}: {ex}", {"case": base_a})
+            continue
+        seq = ["A", "A", "B", "A", "B"] if ctx.quick else ["A", "A", "A", "B", "A", "B", "B", "A"]
+        for k, who in enumerate(seq):
+            base, e = (base_a, ea) if who == "A" else (base_b, eb)
+            case = vary_case(rng, base, "long-lived")
+            case["history"] = seq[:k]
+            # same file NAME rewritten with different content on even steps, a new name on odd ones
+            src_name = f"src_{eng}{who}.{EXT[eng]}" if k % 2 == 0 else f"src_{eng}{who}_{k}.{EXT[eng]}"
+            obs, _p, _f = do_case(ctx, mods, work, case, False, engine=e, tag=who, src_name=src_name)
+            fresh = run_case(mods, work, case, tag="F")
+            ctx.count(2, branch="long-lived-engine")
+            if obs.get("err") or fresh.get("err"):
+                if bool(obs.get("err")) != bool(fresh.get("err")):
+                    _report(ctx, f"C16:{eng}:result-depends-on-call-history",
+                            f"call {k + 1} on a long-lived engine: {obs.get('err')} vs fresh engine: {fresh.get('err')}",
+                            {"case": {kk: v for kk, v in case.items() if not kk.startswith("_")}})
+                continue
+            same = (np.array_equal(obs["genvel"]["vel"], fresh["genvel"]["vel"]) and obs["dek"] == fresh["dek"]
+                    and obs["kin_new"] == fresh["kin_new"] and obs["engine_mass"] == fresh["engine_mass"]
+                    and obs["beta"] == fresh["beta"]
+                    and np.array_equal(obs["genvel"]["pos"], fresh["genvel"]["pos"]) and obs["genvel"]["box"] == fresh["genvel"]["box"])
+            if not same:
+                _report(ctx, f"C16:{eng}:result-depends-on-call-history",
+                        f"call {k + 1} (engine {who}, history {seq[:k]}) on a long-lived {eng} engine gives velocities "
+                        f"{obs['genvel']['vel'].tolist()}, kin_new {obs['kin_new']!r}, beta {obs['beta']!r}; a fresh engine "
+                        f"for the same input gives {fresh['genvel']['vel'].tolist()}, {fresh['kin_new']!r}, {fresh['beta']!r}",
+                        {"case": {kk: v for kk, v in case.items() if not kk.startswith("_")}, "check": "long-lived",
+                         "sequence": seq, "position": k})
+
+
+def sigma_argument_check(ctx, mods, work):
+    """draw_maxwellian_velocities(vel, mass, beta, sigma_v): an explicit non-negative sigma_v (also 0.0, falsy
+    but valid) is used as given; None or any negative entry → estimated as sqrt((1/beta)(1/mass)) — tie only"""
+    case = gen_case(ctx.rng, "turtlemd", 3, 300, None, "sigma-arg")
+    e = build_engine(mods, work, case, tag="S")
+    mass = np.array(case["masses"], dtype=float).reshape(-1, 1)
+    z = np.array(case["z"], dtype=float)
+    est = np.sqrt((1.0 / e.beta) * (1 / mass))
+    for name, sv, want in (("none", None, est), ("given", np.array([[0.5], [2.0], [0.125]]), None),
+                           ("zeros", np.zeros((3, 1)), None), ("negative", np.array([[0.5], [-1.0], [2.0]]), est)):
+        gen = ScriptedGen(z)
+        e.rgen = gen
+        sv_in = None if sv is None else sv.copy()
+        vel, sig = e.draw_maxwellian_velocities(np.zeros((3, 3)), mass, e.beta, sigma_v=sv)
+        want_sig = sv_in if want is None else want
+        ctx.count(1, branch="sigma-argument")
+        ok = (len(gen.log) == 1 and np.allclose(sig, want_sig, rtol=1e-14, atol=0) and np.allclose(vel, want_sig * z, rtol=1e-14, atol=0)
+              and (sv is None or np.array_equal(sv, sv_in)))
+        if not ok:
+            _report(ctx, "C16:draw:sigma-v-argument", f"draw_maxwellian_velocities(sigma_v={name}): returned sigma "
+                    f"{np.array(sig).tolist()}, expected {np.array(want_sig).tolist()}; draws {len(gen.log)}",
+                    {"case": case, "sigma_v": None if sv_in is None else sv_in.tolist(), "check": "sigma-arg"})
+
+
+def gromacs_own_genvel_guard(ctx, mods, work):
+    """GROMACS without infretis_genvel (gmx generates): outside the property, except that a request the engine
+    cannot honour (zero_momentum False) must be refused before anything is touched"""
+    case = gen_case(ctx.rng, "gromacs", 2, 300, False, "gmx-genvel")
+    import contextlib
+    import io
+    d = work / "in_gromacsG"
+    if d.exists():
+        shutil.rmtree(d)
+    d.mkdir()
+    for fn in ("conf.g96", "grompp.mdp", "topol.top"):
+        shutil.copy(EX / "gromacs/H2/gromacs_input" / fn, d / fn)
+    with contextlib.redirect_stdout(io.StringIO()):
+        e = mods["GromacsEngine"]("echo", d.resolve(), 0, 0, 300)
+    _finish_engine(e, work, "gromacs", "G")
+    src = work / "src_gromacsG.g96"
+    write_source(case, src)
+    b0 = src.read_bytes()
+    s_ = mods["System"]()
+    s_.set_pos((str(src), 0))
+    s_.ekin = 3.5
+    before = snap_system(s_)
+    for val in (False,):
+        vs = {"zero_momentum": val}
+        try:
+            e.modify_velocities(s_, vs)
+            out = "no error"
+        except ValueError:
+            out = "value"
+        except Exception as ex:  # noqa: BLE001
+            out = err_kind(ex)
+        ctx.count(1, branch="gromacs-own-genvel-guard")
+        if out != "value" or snap_system(s_) != before or src.read_bytes() != b0 or vs != {"zero_momentum": val}:
+            _report(ctx, "C16:gromacs:genvel-guard", f"gmx-generated velocities with zero_momentum={val!r}: {out}; "
+                    "System/source/settings untouched = "
+                    f"{snap_system(s_) == before}/{src.read_bytes() == b0}/{vs == {'zero_momentum': val}}",
+                    {"case": case, "check": "gmx-guard"})
 
 
 def reproducibility(ctx, mods, work, case):
@@ -1404,7 +1600,13 @@ def run(ctx):
         seen_variants = {"kin": set(), "rng": set()}
         for k, case in enumerate(cases):
             with_prepare = (k % 3 == 0) or not ctx.quick
-            obs, obs_prep, failed = do_case(ctx, mods, work, case, with_prepare)
+            try:
+                obs, obs_prep, failed = do_case(ctx, mods, work, case, with_prepare)
+            except Exception as ex:  # noqa: BLE001  (never let a harness exception hide failures of other cases)
+                import traceback
+                ctx.disagree({"fn": "harness exception", "case": {kk: v for kk, v in case.items() if not kk.startswith("_")}},
+                             type(ex).__name__ + ": " + str(ex)[:300], traceback.format_exc()[-600:])
+                continue
             eng = case["engine"]
             zm_on = case["zm"] if case["zm"] is not None else (eng == "cp2k")
             ctx.count(1 + (1 if with_prepare else 0), engine=eng)
@@ -1428,11 +1630,21 @@ def run(ctx):
                             "kin_new": None if obs.get("err") else obs["kin_new"],
                             "request": None if obs.get("err") or not obs["log"] else
                             [obs["log"][0]["stream"], obs["log"][0]["method"]]})
-        # engines sharing one settings dict
-        run_shared_settings(ctx, mods, work)
+        # engines sharing one settings dict; long-lived engine objects; argument/guard checks
+        for fn in (run_shared_settings, run_long_lived, sigma_argument_check, gromacs_own_genvel_guard):
+            try:
+                fn(ctx, mods, work)
+            except Exception as ex:  # noqa: BLE001  (a harness exception must not hide concrete failures elsewhere)
+                import traceback
+                ctx.disagree({"fn": f"harness exception in {fn.__name__}"}, type(ex).__name__ + ": " + str(ex)[:300],
+                             traceback.format_exc()[-600:])
         # chained regenerations (repeated kicks) on one engine object and one System
         for c in chain_cases(ctx):
-            run_chain(ctx, mods, work, c)
+            try:
+                run_chain(ctx, mods, work, c)
+            except Exception as ex:  # noqa: BLE001
+                ctx.disagree({"fn": "harness exception in run_chain", "case": c}, type(ex).__name__ + ": " + str(ex)[:300], "")
+                continue
             ctx.count(len(c["chain_z"]), branch="chain")
             ctx.hit(f"chain_len={len(c['chain_z'])}")
         for spot, vs in seen_variants.items():
@@ -1452,6 +1664,16 @@ def run(ctx):
         run_c07_engine_streams(ctx)
         ctx.exhaustive = False
         _assume(ctx, [
+            "object state is tie-only (the model is functional): one long-lived engine object over sequences of "
+            "different frames/settings (same file name rewritten, ASE also other atom counts/masses), two engine "
+            "objects of one class alive at once (different T, masses), chains on one System, and one settings dict "
+            "through several engines are each compared with a fresh object's result and with the model value of the "
+            "current input",
+            "the only settings key the five engines read is `zero_momentum` (grep `vel_settings.get(`); its value is "
+            "judged by Python truthiness (0, 0.0, '', None, [] → off; 1, 'no' → on) — the tie maps it to the model's "
+            "Option Bool that way; AMS (needs scm.plams) is not among the five engines of the property; LAMMPS "
+            "supports only `real` units (hard-coded scale/kb); LAMMPS frames with a single atom cannot be read by "
+            "the engine at all (genfromtxt returns a 1-D array), so its atom counts start at 2",
             "input purity is tie-only: the model is functional (settings are an argument, `zeroMomentumFlag` = the "
             "entry if present else the engine's own default: CP2K true, all others false — theorem "
             "zero_momentum_flag_rule); that modify_velocities leaves the settings dict and the System's other fields "
